@@ -36,6 +36,9 @@ fn generic_suffixes(corpus: &[Vec<u8>]) -> Vec<Vec<u8>> {
     for a in alpha {
         for b in alpha {
             s.push(vec![a, b]);
+            for c in alpha {
+                s.push(vec![a, b, c]);
+            }
         }
     }
     for c in corpus {
@@ -163,6 +166,14 @@ where
             for b in (0..=255u8).step_by(1) {
                 sufs.push(vec![b]);
             }
+            let alpha = [0x00u8, 0x06, 0x1f, 0x80, 0x81, 0x82, 0xff];
+            for a in alpha {
+                for b in alpha {
+                    for c in alpha {
+                        sufs.push(vec![a, b, c]);
+                    }
+                }
+            }
             for suf in sufs {
                 acc.count("cases", 1);
                 acc.count("calls", 1);
@@ -267,7 +278,7 @@ pub fn run(run: &RunInfo) -> Summary {
         transitions: acc.get("calls"),
         traces_validated: cases,
         distinct_nontrivial: acc.get("suffix_untouched") + acc.get("seam_cases"),
-        rule: format!("31 commands x canonical values (<= {k} deviating fields, all-present rows, sizing rows straddling 127/128 and 254/255/256) x suffixes (every single byte, 49 two-byte strings over {{00,06,1F,80,81,82,FF}}, every captured blob, the packet itself, every tag of the type alone and followed by a small group); plus deserialize_tagged for Tlv/Llv/Lllv/Adpu/Fixed<1..8> x integer/BCD/text/hex encodings x tag {{none, 27, 1F45}} x 268 suffixes. distinct_nontrivial = (value, suffix) cases that decoded with the suffix handed back"),
+        rule: format!("31 commands x canonical values (<= {k} deviating fields, all-present rows, sizing rows straddling 127/128 and 254/255/256) x suffixes (every single byte, 49 two-byte and 343 three-byte strings over {{00,06,1F,80,81,82,FF}}, every captured blob, the packet itself, every tag of the type alone and followed by a small group); plus deserialize_tagged for Tlv/Llv/Lllv/Adpu/Fixed<1..8> x integer/BCD/text/hex encodings x tag {{none, 27, 1F45}} x 611 suffixes. distinct_nontrivial = (value, suffix) cases that decoded with the suffix handed back"),
         exhaustive: true,
         required_witnesses: vec![
             "suffixes were handed back untouched".into(),
